@@ -9,6 +9,10 @@ TRUSTED = [
     "Model/IsoParser.lean is a hand model of src/dateutil/parser/isoparser.py (cursor = remaining suffix); tied by the iso.parse / iso.date / iso.time / iso.tz correspondence on the whole mutation stream",
     "Spec/IsoForms.lean (printer `render`, field validity `WFields`, denotation `denote`, template-matching recogniser) is the reference for what an ISO-8601 representation is; written from the parser's documented forms",
     "datetime()/date()/time() construction and date +- timedelta are modelled by validity predicates and ordinal range checks (Base/Calendar.lean, Base/Time.lean)",
+    "harness/translate_bytes.py (BytesPy translator): _parse_digits, _parse_tzstr, _parse_isodate_common, _calculate_weekdate, _parse_isodate_uncommon, _parse_isodate, _parse_isotime and the body of isoparse are RE-TRANSLATED from /repo's isoparser.py into Generated/IsoKernels.lean on every run (141 of the module's 164 statements); anything outside the fragment aborts with a named construct (broken tie)",
+    "Proofs/IsoGenEq.lean proves the translated _parse_digits, _parse_tzstr, _calculate_weekdate, _parse_isodate_common, _parse_isodate_uncommon, _parse_isodate EQUAL to the hand model for all inputs (92 of 164 statements), so the `_gen` theorems are statements about the code as it is now; the translated _parse_isotime loop and isoparse body are tied by the per-run differential validation only (isogen.* ops vs the implementation on the whole stream), the equality with the hand model is not proved",
+    "named primitives of the translator (Model/BytesPy.lean), trusted with their documented Python meaning and exercised by the isogen.* validation: slice/len/`in` on bytes, bytes.isdigit, int(bytes) (whitespace, sign, PEP 515 underscores), the fraction regex as `fractionMatch`, list get/set (in-range), date()/isocalendar()/timedelta arithmetic on ordinals, datetime(*components), try/except on the exception kind; the `while` loop bound (8 iterations) is checked: running out of fuel is a distinguished error the implementation never raises",
+    "still hand-modelled: _takes_ascii, isoparser.__init__, and the three thin wrappers parse_isodate / parse_isotime / parse_tzstr (23 of 164 statements)",
 ]
 ASSUMPTIONS = [
     "inputs are str, bytes or text streams; other argument types are outside the property",
@@ -226,6 +230,8 @@ def correspondence(ctx):
             ctx.mismatch("iso.%s" % item[0], {"entry": item[0], "sep": item[1], "zero_as_utc": item[2], "kind": item[3],
                                               "string": item[4]}, i, g)
     ctx.traces += len(reqs)
+    # the translated scanners (Generated/IsoKernels.lean) against the implementation, same stream
+    ic.validate_translation(ctx, [it[:5] for it in stream], impl)
 
 
 def oracle(ctx):
@@ -234,7 +240,7 @@ def oracle(ctx):
     # seed with correspondence differences
     for mm in ctx.mismatches:
         c = mm["input"]
-        if isinstance(c, dict) and "string" in c:
+        if isinstance(c, dict) and "string" in c and c.get("entry") in ("isoparse", "date", "time", "tz"):
             stream.append((c["entry"], c["sep"], c["zero_as_utc"], c["kind"], c["string"], True))
             impl.append(ic.entry_impl(c["entry"], c["string"], c["sep"], c["zero_as_utc"], c["kind"]))
     # the spec is asked about every accepted string
